@@ -236,6 +236,8 @@ def deepcopy_model(it: Interp, v: Any, memo: Optional[Dict[int, Any]] = None) ->
     if isinstance(v, Obj):
         if id(v) in memo:
             return memo[id(v)]
+        if v.attrs.get("_callable") and v.cls_name == "function":
+            return v  # functions are deep-copied by reference
         ag = v.attrs.get("_abstract_graph")
         if isinstance(ag, AbstractGraph):
             ng = AbstractGraph(it, name=f"copy({ag.obj.term.args[0]})")
@@ -260,6 +262,12 @@ def deepcopy_model(it: Interp, v: Any, memo: Optional[Dict[int, Any]] = None) ->
         memo[id(v)] = c
         for k, x in v.attrs.items():
             c.attrs[k] = deepcopy_model(it, x, memo)
+        return c
+    if isinstance(v, TV) and v.kind == "tensor":
+        if id(v) in memo:
+            return memo[id(v)]
+        c = TV(T("copy", (v.term,)), shape=v.shape, dtype=v.dtype, alias=frozenset("copy:" + a for a in v.alias), const=v.const)
+        memo[id(v)] = c
         return c
     if isinstance(v, tuple):
         return tuple(deepcopy_model(it, x, memo) for x in v)
